@@ -54,7 +54,17 @@ def make_tasks(tier):
         for gi in range(len(spec_groups(n))):
             tasks.append((tier, 64 if n % 2 else 32, n, False, gi, 64 if tier != 'thorough' else 256))
     tasks.append((tier, 64, 1, 'mixed', 0, 0))
+    # table placement: the six truth tables allocated one by one (hex.tables.init_shared + hex.<t>.init, what each macro's documentation asks
+    # for) in every rotation of the library's order, starting `filler` ops after a 1024-op boundary - so each table is met at several
+    # placements relative to its own alignment, not only where hex.init happens to put it
+    for rot in range(len(TABLES)):
+        for filler in ((0, 256, 512, 768) if tier == 'thorough' else (0, 256)):
+            for gi in range(len(spec_groups(2))):
+                tasks.append((tier, 64 if (rot + filler // 256) % 2 else 32, 2, ('placed', rot, filler), gi, 1 << (12 if tier == 'thorough' else 9)))
     return tasks
+
+
+TABLES = ('or', 'and', 'mul', 'cmp', 'add', 'sub')
 
 
 def work(task):
@@ -75,8 +85,14 @@ def work(task):
             stlcheck.mixed_sequences(h, specs, 4, 3 if tier == 'thorough' else 2, sieve, stats, case_base)
             stats['states'] += 1
             return stats, sieve.result(), {'mixed_sequences_of': [s.name for s in specs]}, 0
-        specs = spec_groups(n, single)[gi]
-        h = Harness(w, NS, n, [(v, n) for v in VARS], specs, wd, tag=f'c04-{w}-{n}-{gi}')
+        if isinstance(single, tuple):
+            _, rot, filler = single
+            specs = spec_groups(n)[gi]
+            case_base = dict(case_base, single=False, tables=list(TABLES[rot:] + TABLES[:rot]), filler=filler)
+            h = Harness(w, NS, n, [(v, n) for v in VARS], specs, wd, init=('placed', TABLES[rot:] + TABLES[:rot], filler), tag=f'c04-p{rot}-{filler}-{gi}')
+        else:
+            specs = spec_groups(n, single)[gi]
+            h = Harness(w, NS, n, [(v, n) for v in VARS], specs, wd, tag=f'c04-{w}-{n}-{gi}')
     except Exception as e:  # noqa
         if 'Not enough space' in str(e) or 'FlipJump' in type(e).__name__:
             stats['harness_not_assemblable'] = 1
@@ -116,7 +132,8 @@ def replay(args):
         return 1
     specs = stlspec.hex1_specs() if c['single'] else stlspec.hex_specs(c['n'])
     spec = [s for s in specs if s.name == c['block']][0]
-    h = Harness(c['w'], NS, c['n'], [(v, c['n']) for v in VARS], [spec], scratch(), tag='replay')
+    init = ('placed', tuple(c['tables']), c['filler']) if c.get('tables') else 'all'
+    h = Harness(c['w'], NS, c['n'], [(v, c['n']) for v in VARS], [spec], scratch(), init=init, tag='replay')
     mask = (1 << (4 * c['n'])) - 1
     for prev in c.get('previous', [])[:-1] if c.get('phase') == 'chain' else []:
         v = {nm: stlcheck.SENTINEL[nm] & mask for nm in VARS}
